@@ -417,6 +417,33 @@ func runUntrusted(c *vh.Check, u *untrusted) {
 					u.try(c, "pair", fmt.Sprintf("%s=%d x witness-truncated", list, n), e, wb[:len(wb)-1], false)
 				}
 			}
+			// COMPENSATING pairs: the list has k entries fewer (more) and a WELL-FORMED public witness has k
+			// values more (fewer): the sum of the two prover-supplied counts still matches the key
+			base := -1
+			for n := 0; n <= 10; n++ {
+				if bytes.Equal(u.relen(list, n)[0], u.proofBytes[0]) {
+					base = n
+					break
+				}
+			}
+			for _, n := range []int{base - 2, base - 1, base + 1, base + 2} {
+				k := base - n
+				l := np + k
+				if base < 0 || n < 0 || l < 0 {
+					continue
+				}
+				es := elem
+				if es == 0 {
+					es = (CurveID.ScalarField().BitLen() + 7) / 8
+				}
+				pl := payload
+				if l*es <= len(payload) {
+					pl = payload[:l*es]
+				} else {
+					pl = append(append([]byte(nil), payload...), make([]byte, l*es-len(payload))...)
+				}
+				u.try(c, "pair", fmt.Sprintf("%s=%d x well-formed witness of %d values (compensating)", list, n, l), u.relen(list, n)[0], hdr(l, 0, l, pl), true)
+			}
 		}
 	}
 }
